@@ -133,13 +133,27 @@ def _reg(i):
 QUICK = [_reg(Fault("cap4m", 2, 40, None)).name, _reg(Fault("cap8", 2, 40, 8)).name]
 THOROUGH = [_reg(Fault("T_cap4m", 3, 60, None)).name, _reg(Fault("T_cap8", 3, 60, 8)).name, _reg(Fault("T_cap1", 2, 40, 1)).name]
 
+# Pipeline level (harness/pipe.py): the whole real create path — constructor, worker threads, push, finalize (partial packs, collection,
+# params, flush_buffers, close) — with the first failing write at EVERY offset of the archive it writes; finalize must return Err.
+from harness.pipe import Pipeline, SPL, TWO, THREE
+
+
+def _pf(name, threads, samples, **kw):
+    i = Pipeline(name, threads, samples, splitters=SPL, view="fault", preempt=0, **kw)
+    i.required_witnesses = ("no_fault_ok", "faulted", "error_reported")
+    return _reg(i)
+
+
+QUICK.append(_pf("pipe_fault_api_t1", 1, TWO).name)
+THOROUGH += [_pf("T_pipe_fault_multi_t2", 2, THREE, driver="multi").name, _pf("T_pipe_fault_api_t1_store", 1, TWO, zstd="store").name]
+
 
 def run(ctx):
     insts = [INSTANCES[n] for n in (QUICK if ctx["tier"] == "quick" else THOROUGH)]
     res = run_instances("C15", "harness.C15", insts, ctx,
                         assumptions=["the first failing write(2) at byte offset phi makes that and every later write fail (disk full / file size limit)",
                                      "BufWriter semantics: bytes are handed to the file when the buffer fills or on flush; BufWriter::drop ignores errors (std)",
-                                     "errors dropped inside worker threads and process exit plumbing are outside this check"])
+                                     "pipeline-level instances (pipe_fault_*): concrete small inputs, one canonical schedule, BufWriter with its real 4 MiB capacity (everything reaches the file at flush/close), ZSTD stub: the offsets are those of the model's archive; process exit plumbing (main.rs) is outside"])
     found, problems = finalize_slice()
     res["coverage"]["finalize_slice"] = {"archive_result_sites": found, "problems": problems}
     if found < 2:
